@@ -332,6 +332,7 @@ Definition count_pair (p : nat * nat) (l : list (nat * nat)) : nat :=
 Definition nb_symmetric (nb : list (list nat)) : bool :=
   let E := @edges nb in
   forallb (fun p => Nat.eqb (count_pair p E) (count_pair (snd p, fst p) E)) E.
+Definition nb_in_range (n : nat) (nb : list (list nat)) : bool := forallb (forallb (fun k => (k <? n)%nat)) nb.
 Fixpoint nodupb (l : list nat) : bool :=
   match l with [] => true | a :: t => negb (existsb (Nat.eqb a) t) && nodupb t end.
 Definition scheme_wf (s : scheme) (o : lobj) : bool :=
